@@ -282,7 +282,7 @@ namespace net
     // "client bound" runs: a simulated client of the LRA theory (the executor's protocol) decides literals of its own and imposes
     // bounds directly, outside propagation; conflicts found there are handed to theory::backtrack_analyze_and_backjump.
     // (Own stream: histories of the other runs are unchanged.)
-    const bool client = use_lra && prop != "C20" && Rng(seed).derive("client").chance(1, prop == "C09" || prop == "C11" ? 2 : 3);
+    const bool client = use_lra && Rng(seed).derive("client").chance(1, prop == "C09" || prop == "C11" || prop == "C20" ? 2 : 3);
     if (client)
     {
       create.add("guard", 8);
